@@ -44,3 +44,11 @@ def pinned(value):
     if not is_tracing():
         return value
     return realize(value)
+
+
+def choose(sym, n):
+    """Concrete index in range(n) equal to the symbolic int `sym` (one path per value; other values are discarded)."""
+    for i in range(n):
+        if sym == i:
+            return i
+    assume(False)
